@@ -1,7 +1,8 @@
 // native replay for C27: process 1 (forked child) runs the store operations on the real FIX8::FilePersister and is killed
 // (_exit, nothing flushed or closed) right after its N-th completed write/lseek system call; the parent then reopens the
 // same files with a fresh FilePersister and evaluates the oracle of harness/C27_crash.c on the real code.
-// usage: c27_replay <crash_at> <k> {op a b d0 d1 len}*k <kp> {op a b d0 d1 len}*kp {probe}*(kp+1)
+// usage: c27_replay <crash_at> <k> {op a b d0 d1 len}*k <kp> {op a b d0 d1 len}*kp {probe}*(kp+1) [probe3]
+//        (probe3 present: process 2 ends, a third FilePersister reopens the files and is probed with that number)
 #include <fix8/f8includes.hpp>
 #include <cstdio>
 #include <cstdlib>
@@ -38,6 +39,7 @@ int main(int argc, char **argv)
   std::vector<Op> pre(k); for (auto& o : pre) rdop(o);
   int kp = atoi(argv[ai++]); std::vector<Op> post(kp); for (auto& o : post) rdop(o);
   std::vector<unsigned> probes; for (int i = 0; i <= kp && ai < argc; ++i) probes.push_back(strtoul(argv[ai++], 0, 10));
+  const unsigned probe3(ai < argc ? strtoul(argv[ai++], 0, 10) : 0);
   char tmpl[] = "/tmp/vf_c27_XXXXXX"; const char *dir = mkdtemp(tmpl); if (!dir) { perror("mkdtemp"); return 3; }
   int pfd[2]; if (pipe(pfd)) return 3;
   pid_t pid = fork();
@@ -90,6 +92,13 @@ int main(int argc, char **argv)
     }
   }
   delete fp2;
+  if (probe3)
+  {
+    FilePersister *fp3 = new FilePersister;
+    if (!fp3->initialise(dir, "s")) { ++bad; printf("second reopen failed\n"); }
+    else probe(fp3, probe3, "after the second reopen");
+    delete fp3;
+  }
   unlink((std::string(dir) + "/s").c_str()); unlink((std::string(dir) + "/s.idx").c_str()); rmdir(dir);
   printf("%s\n", bad ? "VIOLATED" : "ok");
   return bad ? 1 : 0;
